@@ -187,3 +187,24 @@ Definition pu_trailer (rows : list (list N * list N)) : list N := pu_legend rows
 
 Definition mm_pu_doc (cl : list mcls) (linetype : option (list N)) (rows : list (list N * list N)) : list N :=
   mm_doc cl pu_renderer (pu_header linetype) (pu_trailer rows).
+(* ---- PlantUML is line oriented: count the lines that start with '@' *)
+Fixpoint at_lines (bol : bool) (s : list N) : nat :=
+  match s with
+  | [] => O
+  | c :: s' => (if bol && N.eqb c 64 then 1 else 0) + at_lines (N.eqb c 10) s'
+  end.
+(* was the last character a newline (bol when nothing was read) *)
+Fixpoint eol (bol : bool) (s : list N) : bool :=
+  match s with
+  | [] => bol
+  | c :: s' => eol (N.eqb c 10) s'
+  end.
+(* names are identifiers (dotted for fqn), the linetype argument is a plain word *)
+Definition names_ok (cl : list mcls) : bool :=
+  forallb (fun c => forallb word_char (mc_name c) && forallb word_char (mc_fqn c)
+                    && forallb (fun a => forallb word_char (ma_name a)) (mc_attrs c)) cl.
+Definition rows_ok (rows : list (list N * list N)) : bool := forallb (fun r => forallb word_char (fst r)) rows.
+Definition linetype_ok (lt : option (list N)) : bool := match lt with Some l => forallb plain_char l | None => true end.
+(* the chain never produces a newline *)
+Definition chain_nonl (chain : list (N * list N)) : bool :=
+  forallb (fun x => forallb (fun c => negb (N.eqb c 10)) (esc1 chain x)) (10%N :: map fst chain).
